@@ -482,6 +482,9 @@ func propC08(t *rapid.T) {
 					if u.SpentByUnmined && !spentInStore[op] {
 						t.Fatalf("survivor %s: coin %s:%d (%d) is reported as spent by a pending transaction, but no transaction in the pending store spends it: the removal left a reservation behind\n  %s", m.id[:10], u.TxId[:10], u.Vout, amt(u.Amount), w.journalTail(40))
 					}
+					if !u.SpentByUnmined && spentInStore[op] {
+						t.Fatalf("survivor %s: coin %s:%d (%d) is spent by a transaction of the pending store but is not reported as spent by a pending transaction any more: the removal dropped a survivor's reservation\n  %s", m.id[:10], u.TxId[:10], u.Vout, amt(u.Amount), w.journalTail(40))
+					}
 				}
 			}
 		}
@@ -555,6 +558,50 @@ func propC08(t *rapid.T) {
 	w.syncIssued(t, again)
 	w.auditLedger(t)
 	w.auditHistoriesOpt(t, true)
+	// the wallet that came back: a coin of it is reported as spent by a pending transaction exactly when
+	// the pending store holds a transaction spending it (a reservation by a transaction the removal
+	// deleted would lock the coin for good; a pending spend the store still has must keep it reserved)
+	{
+		spentInStore := map[wire.OutPoint]wire.Hash{}
+		for k, v := range w.readBucket(t, "t", "m") {
+			if len(v) < 8 || len(k) < 32 {
+				continue
+			}
+			var ptx wire.MsgTx
+			if err := ptx.SetBytes(v[8:], wire.DB); err != nil {
+				t.Fatalf("pending store entry does not decode: %v", err)
+			}
+			var h wire.Hash
+			copy(h[:], k[:32])
+			for _, in := range ptx.TxIn {
+				spentInStore[in.PreviousOutPoint] = h
+			}
+		}
+		if _, err := w.env.W.UseWallet(again.id); err != nil {
+			t.Fatalf("UseWallet(re-imported): %v", err)
+		}
+		utx, err := w.env.W.GetUtxo(nil)
+		if err != nil {
+			t.Fatalf("GetUtxo: %v", err)
+		}
+		for _, list := range utx {
+			for _, u := range list {
+				var op wire.OutPoint
+				hh, _ := wire.NewHashFromStr(u.TxId)
+				op.Hash, op.Index = *hh, u.Vout
+				sp, held := spentInStore[op]
+				if u.SpentByUnmined && !held {
+					t.Fatalf("re-imported wallet: coin %s:%d (%d) is reported as spent by a pending transaction, but no transaction in the pending store spends it: the removal left a reservation behind\n  %s", u.TxId[:10], u.Vout, amt(u.Amount), w.journalTail(40))
+				}
+				if !u.SpentByUnmined && held {
+					t.Fatalf("re-imported wallet: coin %s:%d (%d) is spent by pending transaction %s, which the wallet has in its pending store, but is not reported as spent by a pending transaction\n  %s", u.TxId[:10], u.Vout, amt(u.Amount), sp.String()[:10], w.journalTail(40))
+				}
+				if held {
+					w.flag("reimported-coin-held-by-a-kept-pending-tx")
+				}
+			}
+		}
+	}
 	// unconfirmed transactions of the wallet that are announced again after the re-import must be taken
 	// (the removal forgot them; nothing may make the wallet ignore them now)
 	{
